@@ -96,6 +96,7 @@ type exitEff struct {
 	rel    uint64 // released although not held
 	errNil int8   // 0 unknown, 1 nil, 2 non-nil
 	bools  uint16 // 2 bits per result index (0..7) of boolean results other than a trailing ok: 0 unknown, 1 false, 2 true
+	retRel uint64 // classes the function value this exit hands out releases when it is called (`defer lockX(&mu)()`)
 }
 
 type summary struct {
